@@ -16,7 +16,7 @@ RULE = ('Part many: a fixed two-cell scan design with 4096..9000 patterns. Part 
         'Oracle: expected tests / responses / tests_loc arrays computed from the generator model (row order = s_nodes; character j of a load/unload '
         'string belongs to the j-th cell counted from scan-out; load value XOR parity of markers between scan-in and the cell, unload value XOR '
         'parity between the cell and scan-out; LoC: own 4-valued evaluation of the next state), for any call order, repeated calls, pass-through filters, and for a second circuit (other port / flip-flop order) served by the same parse result. X and - compared as one class. non-trivial: a chain '
-        'with >= 3 cells and a marker strictly inside it, >= 2 patterns; distinct by SHA-1.')
+        'with >= 3 cells and a marker strictly inside it, >= 2 patterns; distinct by SHA-1. Half of the pattern cases go through load() of a scratch file (plain or .gz, LF or CR LF line ends) instead of parse().')
 ASSUMPTIONS = ['rows the statement does not define are only required to be unknown/unassigned (outputs in tests, inputs in responses) or skipped '
                '(clock row and inputs of patterns without capture pulse in tests_loc)']
 
@@ -178,7 +178,12 @@ def prop(case):
     from kyupy.circuit import Node
     nl, chains = case['nl'], case['chains']
     text = render(case)
-    sf = stil.parse(text)
+    via = (case['brk'] >> 3) % 6            # 0-2: parse(text); 3: load(plain file); 4: load(.gz); 5: load(.gz) - and bit 7: CR LF line ends in the file
+    if via >= 3:
+        from vk.files import with_files
+        sf = with_files([text], '.stil', via >= 4, bool((case['brk'] >> 7) & 1), stil.load)[0]
+    else:
+        sf = stil.parse(text)
     npat = len(case['pats'])
     clk = case['ndata']
     inner = [False]
@@ -301,6 +306,7 @@ def prop(case):
     if len(chains) > 1: labels.append('several_chains')
     if any(p['style'] != 'sa' for p in case['pats']): labels.append('loc_patterns')
     if any(ch['dotted'] for ch in chains): labels.append('dotted_cell_names')
+    if via >= 3: labels.append('loaded_from_' + ('gz_' if via >= 4 else '') + 'file' + ('_crlf' if (case['brk'] >> 7) & 1 else ''))
     return Obs(inner[0] and npat >= 2, labels, checks=3 * s_len * npat)
 
 
